@@ -43,11 +43,18 @@ func (c *countingReader) Read(p []byte) (int, error) {
 func CountingLinkSystem(ls ipld.LinkSystem) (ipld.LinkSystem, ReadCounter) {
 	c := counter{}
 	clc := ls
+	seen := make(map[string]struct{})
 	clc.StorageReadOpener = func(lc linking.LinkContext, l ipld.Link) (io.Reader, error) {
 		r, err := ls.StorageReadOpener(lc, l)
 		if err != nil {
 			return nil, err
 		}
+		// A block that is loaded again (repeated links when links may be visited more than once)
+		// is written to the CAR only once, so it must be counted only once.
+		if _, ok := seen[l.Binary()]; ok {
+			return r, nil
+		}
+		seen[l.Binary()] = struct{}{}
 		buf := bytes.NewBuffer(nil)
 		n, err := buf.ReadFrom(r)
 		if err != nil {
